@@ -57,6 +57,8 @@ Record LI (p : policy) (R : list lrow) : Prop := mkLI {
   li_one : forall k i1 i2, In (k, i1) (d_L (p_ix p)) -> In (k, i2) (d_L (p_ix p)) ->
                            ~ In i1 (d_del (p_ix p)) -> ~ In i2 (d_del (p_ix p)) -> i1 = i2;
   li_rows : forall x, In x (p_all p) -> exists tags, In (mkS (r_m x) tags, r_id x) (d_L (p_ix p));
+  li_memlive : forall x, In x (p_mem p) ->
+                         exists tags, In (mkS (r_m x) tags, r_id x) (d_L (p_ix p)) /\ ~ In (r_id x) (d_del (p_ix p));
   li_mbound : forall e, In e (d_L (p_ix p)) -> s_mst (fst e) <= p_nextm p;
   li_cbound : forall x, In x (p_cur p) -> snd x <= p_nextm p;
   li_cinj : forall n1 n2 pm, cur p n1 = Some pm -> cur p n2 = Some pm -> n1 = n2;
@@ -159,6 +161,10 @@ Proof.
     rewrite Hallnew. intros x Hx. apply in_app_iff in Hx. destruct Hx as [Hx | [<- | []]].
     + destruct (li_rows _ _ H x Hx) as (tg & Hin). exists tg. apply HL'. left. exact Hin.
     + exists tags0. exact Win.
+  - (* memtable rows have live ids *)
+    rewrite Wdel, Hmem1. intros x Hx. apply in_app_iff in Hx. destruct Hx as [Hx | [<- | []]].
+    + destruct (li_memlive _ _ H x Hx) as (tg & Hin & Hl). exists tg. split; auto. apply HL'. left. exact Hin.
+    + exists tags0. split; [exact Win | exact Wlive].
   - intros e He. apply HL' in He. destruct He as [He | [-> _]]; simpl.
     + apply (li_mbound _ _ H) in He. lia.
     + exact Hpmb.
@@ -227,15 +233,17 @@ Lemma LI_ext p p' R :
   p_cur p' = p_cur p -> p_nextm p' = p_nextm p -> d_L (p_ix p') = d_L (p_ix p) -> d_del (p_ix p') = d_del (p_ix p) ->
   d_next (p_ix p') = d_next (p_ix p) -> p_deld p' = d_del (p_ix p') ->
   lww (p_all p') = lww (p_all p) -> (forall x, In x (p_all p') -> In x (p_all p)) ->
+  (forall x, In x (p_mem p') -> In x (p_mem p)) ->
   LI p R -> LI p' R.
 Proof.
-  intros Ec En EL Ed Ex Edd Elww Hin H.
+  intros Ec En EL Ed Ex Edd Elww Hin Hmem H.
   assert (Hcur : forall n, cur p' n = cur p n) by (intros n; unfold cur; rewrite Ec; reflexivity).
   constructor; rewrite ?EL, ?Ed, ?En, ?Elww.
   - destruct (li_dwf _ _ H) as (A & B & C). unfold dwf. rewrite EL, Ed, Ex. auto.
   - rewrite Edd, Ed. reflexivity.
   - apply (li_one _ _ H).
   - intros x Hx. apply (li_rows _ _ H). auto.
+  - intros x Hx. apply (li_memlive _ _ H). auto.
   - apply (li_mbound _ _ H).
   - rewrite Ec. apply (li_cbound _ _ H).
   - intros n1 n2 pm. rewrite !Hcur. apply (li_cinj _ _ H).
@@ -251,6 +259,7 @@ Proof.
   - simpl. apply (li_deld _ _ H).
   - rewrite E. reflexivity.
   - rewrite E. auto.
+  - simpl. intros x [].
 Qed.
 
 Lemma LI_compact p R i k : LI p R -> LI (p_compact p i k) R.
@@ -270,9 +279,36 @@ Qed.
 Lemma LI_sync p R : LI p R -> LI (p_sync p) R.
 Proof. intros H. apply (LI_ext p); auto; reflexivity. Qed.
 
+(* the WAL replay finds for every memtable row the id it has: the one live id of its key *)
+Lemma lookup_live_the s k id : NoDup (map snd (d_L s)) ->
+  (forall k0 i1 i2, In (k0, i1) (d_L s) -> In (k0, i2) (d_L s) -> ~ In i1 (d_del s) -> ~ In i2 (d_del s) -> i1 = i2) ->
+  In (k, id) (d_L s) -> ~ In id (d_del s) -> lookup_live s k = Some id.
+Proof.
+  intros Hnd Hone Hin Hlive. destruct (lookup_live s k) as [id' |] eqn:E.
+  - apply lookup_live_some in E. destruct E as [Hin' Hl']. f_equal. eapply Hone; eauto.
+  - exfalso. apply Hlive. eapply lookup_live_none; eauto.
+Qed.
+Lemma replay_id s rows acc : NoDup (map snd (d_L s)) ->
+  (forall k0 i1 i2, In (k0, i1) (d_L s) -> In (k0, i2) (d_L s) -> ~ In i1 (d_del s) -> ~ In i2 (d_del s) -> i1 = i2) ->
+  (forall x, In x rows -> exists tags, In (mkS (r_m x) tags, r_id x) (d_L s) /\ ~ In (r_id x) (d_del s)) ->
+  fold_left replay_row rows (s, acc) = (s, acc ++ rows).
+Proof.
+  intros Hnd Hone. revert acc. induction rows as [| x r IH]; intros acc Hrows; simpl; [rewrite app_nil_r; reflexivity |].
+  destruct (Hrows x (or_introl eq_refl)) as (tags & Hin & Hlive).
+  unfold replay_row at 2. simpl. rewrite (key_of_in _ _ _ Hnd Hin). unfold write.
+  rewrite (lookup_live_the s _ _ Hnd Hone Hin Hlive). simpl.
+  rewrite IH; [| intros y Hy; apply Hrows; right; exact Hy]. rewrite <- app_assoc. simpl. destruct x; reflexivity.
+Qed.
+
 Lemma LI_restart p R : LI p R -> LI (p_restart p) R.
 Proof.
-  intros H. apply (LI_ext p); auto; try reflexivity; simpl.
+  intros H. pose proof (li_dwf _ _ H) as ((Hnd & _) & _).
+  assert (E : p_restart p = mkP (p_cur p) (p_nextm p) (mkD (d_L (p_ix p)) (p_deld p) (d_next (p_ix p)) (d_dead (p_ix p)))
+                                (p_deld p) (p_mem p) (p_files p)).
+  { unfold p_restart. rewrite replay_id; simpl; auto.
+    - rewrite (li_deld _ _ H). apply (li_one _ _ H).
+    - rewrite (li_deld _ _ H). apply (li_memlive _ _ H). }
+  rewrite E. apply (LI_ext p); auto; try reflexivity; simpl.
   - apply (li_deld _ _ H).
 Qed.
 
@@ -282,11 +318,13 @@ Lemma list_ids_char am L del m q id : wfL L -> okq q ->
   exists s, In (s, id) L /\ ~ In id del /\ s_mst s = m /\ evalq am q (s_tags s) = true.
 Proof. intros Hwf Hq. rewrite (list_ids_exact am L del m q id Hwf Hq). apply spec_char. Qed.
 
-Lemma LI_drop_series am p R n0 q : LI p R -> okq q ->
-  LI (p_drop_series true am p n0 q) (s_drop_series am R n0 q).
+Lemma LI_drop_series am p0 R n0 q : LI p0 R -> okq q ->
+  LI (p_drop_series true true am p0 n0 q) (s_drop_series am R n0 q).
 Proof.
-  intros H Hq. pose proof (li_dwf _ _ H) as Hdwf. destruct Hdwf as (Hwf & Hb & Hd).
-  unfold p_drop_series. destruct (cur p n0) as [pm |] eqn:Ec.
+  intros H0 Hq. unfold p_drop_series. set (p := p_flush p0). assert (H : LI p R) by (apply LI_flush; exact H0).
+  assert (Hmem0 : p_mem p = []) by reflexivity. clearbody p. clear H0.
+  pose proof (li_dwf _ _ H) as Hdwf. destruct Hdwf as (Hwf & Hb & Hd).
+  destruct (cur p n0) as [pm |] eqn:Ec.
   - set (ids := list_ids am (d_T (p_ix p)) (d_del (p_ix p)) pm q).
     assert (Hids : forall id, In id ids <->
               exists s, In (s, id) (d_L (p_ix p)) /\ ~ In id (d_del (p_ix p)) /\ s_mst s = pm /\ evalq am q (s_tags s) = true).
@@ -298,6 +336,7 @@ Proof.
     + rewrite (li_deld _ _ H). reflexivity.
     + intros k i1 i2 H1 H2 N1 N2. apply (li_one _ _ H k); auto; intros A; [apply N1 | apply N2]; apply in_app_iff; auto.
     + apply (li_rows _ _ H).
+    + rewrite Hmem0. intros x [].
     + apply (li_mbound _ _ H).
     + apply (li_cbound _ _ H).
     + apply (li_cinj _ _ H).
@@ -338,6 +377,7 @@ Proof.
     { intros n. rewrite !cur_curl. unfold p'. simpl. apply curl_filter. }
     constructor; try apply H; fold p'.
     + intros x Hx. rewrite Eall in Hx. apply filter_In in Hx. apply (li_rows _ _ H). tauto.
+    + intros x Hx. simpl in Hx. apply filter_In in Hx. apply (li_memlive _ _ H). tauto.
     + intros x Hx. simpl in Hx. apply filter_In in Hx. apply (li_cbound _ _ H). tauto.
     + intros n1 n2 m. rewrite !Hcur. destruct (n1 =? n0); [discriminate |]. destruct (n2 =? n0); [discriminate |].
       apply (li_cinj _ _ H).
@@ -426,7 +466,7 @@ Proof. split; [reflexivity | constructor]. Qed.
 Lemma kupd_id {V} k (l : list (key * V)) : kupd k (fun x => x) l = l.
 Proof. unfold kupd. induction l as [| [k1 v] r IH]; simpl; auto. rewrite IH. destruct (key_eqb k1 k); reflexivity. Qed.
 
-Lemma GI_step am t s o : GI t s -> top_ok o -> GI (tstep true am t o) (sstep am s o).
+Lemma GI_step am t s o : GI t s -> top_ok o -> GI (tstep true true am t o) (sstep am s o).
 Proof.
   intros [Hd Hk] Hok. destruct o; simpl in *; rewrite <- ?Hd.
   - destruct (mem d (t_dbs t)); split; simpl; auto; try congruence.
@@ -442,7 +482,7 @@ Proof.
   - split; simpl; auto. rewrite <- (kupd_id (d, r) (s_pols s)). apply krel_kupd; auto. intros a b Hab. apply LI_restart; auto.
 Qed.
 
-Lemma GI_run am os : forall t s, GI t s -> Forall top_ok os -> GI (trun true am t os) (srun am s os).
+Lemma GI_run am os : forall t s, GI t s -> Forall top_ok os -> GI (trun true true am t os) (srun am s os).
 Proof.
   induction os as [| o r IH]; simpl; intros t s H Hok; auto.
   inversion Hok; subst. apply IH; auto. apply GI_step; auto.
@@ -451,25 +491,25 @@ Qed.
 (* THE REFINEMENT: after any sequence of operations, every read shape on every (database, policy, measurement) returns in the
    system model exactly the rows the reference holds for it; so does every listing *)
 Theorem tree_refines am os d r n q x : Forall top_ok os -> okq q ->
-  In x (tread am (trun true am t0 os) d r n q) <-> In x (sread am (srun am s0 os) d r n q).
+  In x (tread am (trun true true am t0 os) d r n q) <-> In x (sread am (srun am s0 os) d r n q).
 Proof.
   intros Hok Hq. pose proof (GI_run am os t0 s0 GI_0 Hok) as [_ Hk].
   unfold tread, sread. pose proof (krel_kget LI (d, r) _ _ Hk) as Hg.
-  destruct (kget (d, r) (t_pols (trun true am t0 os))), (kget (d, r) (s_pols (srun am s0 os))); try contradiction; [| tauto].
+  destruct (kget (d, r) (t_pols (trun true true am t0 os))), (kget (d, r) (s_pols (srun am s0 os))); try contradiction; [| tauto].
   apply LI_read; auto.
 Qed.
 Theorem tree_list_refines am os d r n q tg : Forall top_ok os -> okq q ->
-  In tg (tlist am (trun true am t0 os) d r n q) <-> In tg (slist am (srun am s0 os) d r n q).
+  In tg (tlist am (trun true true am t0 os) d r n q) <-> In tg (slist am (srun am s0 os) d r n q).
 Proof.
   intros Hok Hq. pose proof (GI_run am os t0 s0 GI_0 Hok) as [_ Hk].
   unfold tlist, slist. pose proof (krel_kget LI (d, r) _ _ Hk) as Hg.
-  destruct (kget (d, r) (t_pols (trun true am t0 os))), (kget (d, r) (s_pols (srun am s0 os))); try contradiction; [| tauto].
+  destruct (kget (d, r) (t_pols (trun true true am t0 os))), (kget (d, r) (s_pols (srun am s0 os))); try contradiction; [| tauto].
   apply LI_list; auto.
 Qed.
 
 (* =====================================================================================================================
    consequences, first on the reference machine, then transported to the system model by the refinement *)
-Lemma trun_app d am t a b : trun d am t (a ++ b) = trun d am (trun d am t a) b.
+Lemma trun_app d f am t a b : trun d f am t (a ++ b) = trun d f am (trun d f am t a) b.
 Proof. unfold trun. apply fold_left_app. Qed.
 Lemma srun_app am s a b : srun am s (a ++ b) = srun am (srun am s a) b.
 Proof. unfold srun. apply fold_left_app. Qed.
@@ -630,7 +670,7 @@ Qed.
 (* ---- the same for the system model *)
 Section Transport.
   Variable am : N -> N -> bool.
-  Notation run := (trun true am t0).
+  Notation run := (trun true true am t0).
 
   Theorem drop_exact ops X d r n q x : Forall top_ok (ops ++ [X]) -> okq q -> is_drop X = true ->
     In x (tread am (run (ops ++ [X])) d r n q) <-> In x (tread am (run ops) d r n q) /\ hit am X d r n (o_tags x) = false.
